@@ -68,7 +68,7 @@ def pick_variant(rng, slot: str) -> str:
     return rng.choices(vs, weights=w)[0]
 
 
-def gen_case(rng, entry=None, alias=None, tkind=None, present=None) -> dict:
+def gen_case(rng, entry=None, alias=None, tkind=None, present=None, shape=None) -> dict:
     entry = entry or rng.choices(list(ENTRY_LEVELS), weights=[22, 32, 22, 12, 12])[0]
     # "unhashable": Annotated alias whose metadata is a list - it cannot be a table key and the code must skip it
     alias = alias or rng.choices(["annotated", "newtype", "none", "unhashable"], weights=[55, 22, 13, 10])[0]
@@ -86,7 +86,39 @@ def gen_case(rng, entry=None, alias=None, tkind=None, present=None) -> dict:
     # a level without registrations: dialect absent, or present with an unrelated table
     empty = {lvl: rng.choice(["absent", "unrelated"]) for lvl in ENTRY_LEVELS[entry]}
     return {"entry": entry, "alias": alias, "tkind": tkind, "slots": slots, "empty": empty,
-            "dialect_support": bool(rng.random() < 0.5)}
+            "dialect_support": bool(rng.random() < 0.5), "shape": gen_shape(rng, entry) if shape is None else shape}
+
+
+DEFAULT_SHAPE = {"decl": "own", "generic": "plain", "position": "top", "config_at": "own", "config_style": "base",
+                 "decoy": "none", "target": "subclass"}
+
+
+def gen_shape(rng, entry: str) -> dict:
+    """Dimensions that must not change the resolution (the model does not mention them):
+    decl      where the field (with its options) is declared: in the class itself, in a base class and
+              inherited, or re-declared (in a middle class / in the class itself) over a base declaration that
+              carries other ("decoy") options;
+    generic   the field type is written directly, or through a TypeVar of a generic dataclass that is
+              specialised (alias key = the *specialised* Annotated alias);
+    position  the field is observed on the object passed to the call, on a Self-typed child (Optional[Self],
+              List[Self]) or on a nested dataclass - the call dialect and the format dialect must reach it;
+    config_at / config_style   Config on the class itself or inherited; subclass of BaseConfig or a plain class."""
+    if entry == "codec_bare":
+        return dict(DEFAULT_SHAPE)
+    sh = dict(DEFAULT_SHAPE)
+    sh["decl"] = rng.choices(["own", "inherit", "redeclare_mid", "redeclare_leaf"], weights=[45, 15, 25, 15])[0]
+    if sh["decl"] == "own" and rng.random() < 0.4:
+        sh["generic"] = "typevar"
+        sh["target"] = rng.choice(["subclass", "alias"]) if entry == "codec_dc" else "subclass"
+    sh["position"] = rng.choices(["top", "self_opt", "self_list", "inner"], weights=[50, 18, 12, 20])[0]
+    if sh["target"] == "alias" and sh["position"] in ("self_opt", "self_list"):
+        # excluded (not a C10 matter, fails without any customization): a codec of a specialised generic alias
+        # Box[int] whose class has a Self-typed field raises AttributeError / InvalidFieldValue on /repo
+        sh["position"] = "top"
+    sh["config_at"] = rng.choice(["own", "own", "parent"]) if (sh["decl"] != "own" or sh["generic"] == "typevar") else "own"
+    sh["config_style"] = rng.choice(["base", "base", "plain"])
+    sh["decoy"] = rng.choice(["f1", "f2", "both"]) if sh["decl"].startswith("redeclare") else "none"
+    return sh
 
 
 def effective(variant: str, d: str) -> bool:
@@ -150,13 +182,26 @@ def creation_recursion(case: dict) -> bool:
         drops = [("call",), ("call", "dflt")]
     else:
         return False
+    sh = {**DEFAULT_SHAPE, **case.get("shape", {})}
+    if sh["decl"] != "own" or sh["generic"] == "typevar":
+        # ancestors declared before the class that carries the Config are compiled without it
+        drops = drops + [("call", "cfgd", "cfg"), ("call", "cfgd", "cfg", "dflt")]
+    # every class of the chain is compiled: with the field's own options, with the decoy options of a base
+    # declaration, or (generic base with an unbound TypeVar) in a form where no registration matches
+    tables = {s: v for s, v in case["slots"].items() if s not in ("F1", "F2")}
+    fields = [{s: v for s, v in case["slots"].items() if s in ("F1", "F2")}]
+    if sh["decoy"] in ("f1", "both"):
+        fields.append({"F1": "both"})
+    elif sh["decoy"] == "f2":
+        fields.append({"F2": "strat"})
     for drop in drops:
-        c = dict(case)
-        c["slots"] = {s: v for s, v in case["slots"].items() if s.split(".")[0] not in drop}
-        for d in ("ser", "de"):
-            p = stale_alias_prediction(c, d)
-            if p is not None and p["mode"] == "recursion":
-                return True
+        for fs in fields:
+            c = dict(case)
+            c["slots"] = {**{s: v for s, v in tables.items() if s.split(".")[0] not in drop}, **fs}
+            for d in ("ser", "de"):
+                p = stale_alias_prediction(c, d)
+                if p is not None and p["mode"] == "recursion":
+                    return True
     return False
 
 
@@ -167,7 +212,7 @@ def creation_recursion(case: dict) -> bool:
 PRELUDE = '''
 import datetime, sys
 from dataclasses import dataclass, field
-from typing import Annotated, Any, Dict, List, NewType
+from typing import Annotated, Any, Dict, Generic, List, NewType, Optional, Self, Tuple, TypeVar
 from mashumaro import DataClassDictMixin, pass_through
 from mashumaro.config import BaseConfig, ADD_DIALECT_SUPPORT
 from mashumaro.dialect import Dialect
@@ -202,6 +247,17 @@ class AStrat(SerializationStrategy, use_annotations=True):
 
 def ident(x):
     return x
+
+def errname(e):
+    # a RecursionError raised while a nested class is compiled at call time arrives wrapped (InvalidFieldValue ...)
+    seen = 0
+    x = e
+    while x is not None and seen < 50:
+        if isinstance(x, RecursionError):
+            return "RecursionError"
+        x = x.__cause__ or x.__context__
+        seen += 1
+    return type(e).__name__ + ": " + str(e)[:200]
 
 def observe(d, out, original, builtin):
     layers = []
@@ -293,46 +349,120 @@ def build_source(case: dict) -> str:
             base = "DataClassMessagePackMixin"
         else:
             base = ""
+        sh = {**DEFAULT_SHAPE, **case.get("shape", {})}
+        mixin = entry in ("mixin", "mixin_fmt", "mixin_msgpack")
+        dsupport = mixin and (has["call"] or case.get("dialect_support"))
         cfg = []
-        if entry in ("mixin", "mixin_fmt", "mixin_msgpack") and (has["call"] or case.get("dialect_support")):
+        if dsupport:
             cfg.append("code_generation_options = [ADD_DIALECT_SUPPORT]")
         if has["cfgd"]:
             cfg.append("dialect = CfgD")
         ents = table("cfg")
         if ents:
             cfg.append(f"serialization_strategy = {{{', '.join(ents)}}}")
-        L.append("def make():\n    @dataclass\n    class DC" + (f"({base})" if base else "") + ":\n"
-                 f"        x: FT = field(metadata={{{', '.join(md)}}})\n"
-                 + ("        class Config(BaseConfig):\n" + "".join(f"            {c}\n" for c in cfg) if cfg else "")
-                 + "    return DC")
+        cfg_base = "(BaseConfig)" if sh["config_style"] == "base" else ""
+
+        def cfg_lines(ind):
+            return [ind + f"class Config{cfg_base}:"] + [ind + "    " + c for c in cfg] if cfg else []
+
+        typevar = sh["generic"] == "typevar"
+        if typevar:
+            L.append('T = TypeVar("T")')
+            tdecl = {"annotated": 'Annotated[T, "m"]', "unhashable": 'Annotated[T, ["m"]]'}.get(alias, "T")
+            bind = "ALIAS" if alias == "newtype" else "EX"
+        else:
+            tdecl = "FT"
+        decoy = []
+        if sh["decoy"] in ("f1", "both"):
+            decoy += ['"serialize": S("decoyF1")', '"deserialize": D("decoyF1")']
+        if sh["decoy"] in ("f2", "both"):
+            decoy.append('"serialization_strategy": Strat("decoyF2")')
+        real_field = f"x: {tdecl} = field(metadata={{{', '.join(md)}}})"
+        decoy_field = f"x: {tdecl} = field(metadata={{{', '.join(decoy)}}})"
+        # the container of the Self children must not itself be a registered key (list is the origin key of List[int])
+        kids = "kids: Tuple[Self, ...] = ()" if case["tkind"] == "list" else "kids: List[Self] = field(default_factory=list)"
+        extra = {"self_opt": ["nxt: Optional[Self] = None"], "self_list": [kids]}.get(sh["position"], [])
+        bases = lambda *b: "(" + ", ".join(x for x in b if x) + ")" if any(b) else ""  # noqa: E731
+        # chain of classes: (header, body lines, carries Config?)
+        chain = []
+        parent_cfg = sh["config_at"] == "parent"
+        if typevar:
+            chain.append((f"class Box{bases('Generic[T]', base)}:", [real_field] + extra, parent_cfg))
+            if sh["target"] == "subclass":
+                chain.append(("class DC(Box[" + bind + "]):", [], not parent_cfg))
+                target, ctor = "DC", "DC"
+            else:
+                chain[0] = (chain[0][0], chain[0][1], True)
+                target, ctor = "Box[" + bind + "]", "Box"
+        elif sh["decl"] == "own":
+            chain.append((f"class DC{bases(base)}:", [real_field] + extra, True))
+        elif sh["decl"] == "inherit":
+            chain.append((f"class Base{bases(base)}:", [real_field] + extra, parent_cfg))
+            chain.append(("class DC(Base):", [], not parent_cfg))
+        elif sh["decl"] == "redeclare_mid":
+            chain.append((f"class Base{bases(base)}:", [decoy_field], False))
+            chain.append(("class Middle(Base):", [real_field] + extra, parent_cfg))
+            chain.append(("class DC(Middle):", [], not parent_cfg))
+        else:  # redeclare_leaf
+            chain.append((f"class Base{bases(base)}:", [decoy_field], parent_cfg))
+            chain.append(("class DC(Base):", [real_field] + extra, not parent_cfg))
+        if not typevar:
+            target, ctor = "DC", "DC"
+        # module-level classes (a nested dataclass is referred to by name), creation errors are recorded
+        M = ["CLASS_ERROR = None", "try:"]
+        for header, body, with_cfg in chain:
+            M.append("    @dataclass")
+            M.append("    " + header)
+            lines = ["        " + b for b in body] + (cfg_lines("        ") if with_cfg else [])
+            M += lines or ["        pass"]
+        if sh["position"] == "inner":
+            M.append(f"    Target = {target}")
+            M.append("    @dataclass")
+            M.append(f"    class Outer{bases(base)}:")
+            M.append("        inner: Target")
+            if dsupport:
+                M += [f"        class Config{cfg_base}:", "            code_generation_options = [ADD_DIALECT_SUPPORT]"]
+            M.append(f"    TOP, CT = Outer, {ctor}")
+        else:
+            M.append(f"    TOP, CT = {target}, {ctor}")
+        M += ["except RecursionError:", "    CLASS_ERROR = 'RecursionError'", "except Exception as e:",
+              "    CLASS_ERROR = errname(e)"]
+        L.append("\n".join(M))
+        L.append(f"VALUE0 = {tk['value']}\nWIRE0 = {tk['wire']}")
+        pos = sh["position"]
+        obj = {"top": "CT(VALUE)", "self_opt": "CT(VALUE0, CT(VALUE))", "self_list": "CT(VALUE0, (CT(VALUE),))",
+               "inner": "TOP(CT(VALUE))"}[pos]
+        wire = {"top": "{'x': WIRE}", "self_opt": "{'x': WIRE0, 'nxt': {'x': WIRE}}",
+                "self_list": "{'x': WIRE0, 'kids': [{'x': WIRE}]}", "inner": "{'inner': {'x': WIRE}}"}[pos]
+        sel_ser = {"top": "['x']", "self_opt": "['nxt']['x']", "self_list": "['kids'][0]['x']", "inner": "['inner']['x']"}[pos]
+        sel_de = {"top": ".x", "self_opt": ".nxt.x", "self_list": ".kids[0].x", "inner": ".inner.x"}[pos]
     kw = "dialect=CallD" if has.get("call") else ""
+    ckw = ", " + kw if kw else ""
     if entry == "mixin":
-        ser = f"DC(VALUE).to_dict({kw})['x']"
-        de = f"DC.from_dict({{'x': WIRE}}{', ' + kw if kw else ''}).x"
+        ser = f"{obj}.to_dict({kw}){sel_ser}"
+        de = f"TOP.from_dict({wire}{ckw}){sel_de}"
     elif entry == "mixin_fmt":
-        ser = f"DC(VALUE).to_fmt({kw})['x']"
-        de = f"DC.from_fmt({{'x': WIRE}}{', ' + kw if kw else ''}).x"
+        ser = f"{obj}.to_fmt({kw}){sel_ser}"
+        de = f"TOP.from_fmt({wire}{ckw}){sel_de}"
     elif entry == "mixin_msgpack":
-        ser = f"DC(VALUE).to_msgpack(encoder=ident{', ' + kw if kw else ''})['x']"
-        de = f"DC.from_msgpack({{'x': WIRE}}, decoder=ident{', ' + kw if kw else ''}).x"
+        ser = f"{obj}.to_msgpack(encoder=ident{ckw}){sel_ser}"
+        de = f"TOP.from_msgpack({wire}, decoder=ident{ckw}){sel_de}"
     elif entry == "codec_dc":
         dd = "DfltD" if has["dflt"] else "None"
-        ser = f"BasicEncoder(DC, default_dialect={dd}).encode(DC(VALUE))['x']"
-        de = f"BasicDecoder(DC, default_dialect={dd}).decode({{'x': WIRE}}).x"
+        ser = f"BasicEncoder(TOP, default_dialect={dd}).encode({obj}){sel_ser}"
+        de = f"BasicDecoder(TOP, default_dialect={dd}).decode({wire}){sel_de}"
     else:
         dd = "DfltD" if has["dflt"] else "None"
         ser = f"BasicEncoder(FT, default_dialect={dd}).encode(VALUE)"
         de = f"BasicDecoder(FT, default_dialect={dd}).decode(WIRE)"
-    mk = "DC = make()" if entry != "codec_bare" else "pass"
     L.append(
-        "def run():\n    res = {}\n    try:\n        " + mk + "\n"
-        "    except RecursionError:\n        return {'class_error': 'RecursionError'}\n"
-        "    except Exception as e:\n        return {'class_error': type(e).__name__ + ': ' + str(e)[:200]}\n"
+        "def run():\n    res = {}\n"
+        + ("    if CLASS_ERROR:\n        return {'class_error': CLASS_ERROR}\n" if entry != "codec_bare" else "") +
         "    for d in ('ser', 'de'):\n        try:\n"
         f"            if d == 'ser':\n                res[d] = observe(d, {ser}, VALUE, BUILTIN_SER)\n"
         f"            else:\n                res[d] = observe(d, {de}, WIRE, BUILTIN_DE)\n"
         "        except RecursionError:\n            res[d] = {'error': 'RecursionError'}\n"
-        "        except Exception as e:\n            res[d] = {'error': type(e).__name__ + ': ' + str(e)[:200]}\n"
+        "        except Exception as e:\n            res[d] = {'error': errname(e)}\n"
         "    return res\n")
     return "\n".join(L)
 
@@ -682,6 +812,25 @@ def generate_cases(ctx: vlib.Ctx) -> list[dict]:
             c["slots"].update({a: "both" if a != "F2" else "strat", b: "both" if b != "F2" else "strat"})
             cases.append(c)
         cases.append(gen_case(rng, entry, "annotated", tk, present=[]))
+    # shape probes: each shape x (a lower-precedence registration that must lose / an alias registration that must win)
+    for entry in ("mixin", "mixin_fmt", "codec_dc", "mixin_msgpack"):
+        tk = "bytes" if entry == "mixin_msgpack" else rng.choice(["list", "dict", "date"])
+        lv = ENTRY_LEVELS[entry]
+        top, low = lv[0], ("cfg" if lv[0] != "cfg" else "cfgd")
+        for sh in ({"generic": "typevar"}, {"generic": "typevar", "config_at": "parent"},
+                   {"generic": "typevar", "target": "alias"} if entry == "codec_dc" else {"generic": "typevar", "position": "inner"},
+                   {"decl": "inherit"}, {"decl": "inherit", "config_at": "parent", "config_style": "plain"},
+                   {"decl": "redeclare_mid", "decoy": "both"}, {"decl": "redeclare_mid", "decoy": "f2", "config_at": "parent"},
+                   {"decl": "redeclare_leaf", "decoy": "both"},
+                   {"position": "self_opt"}, {"position": "self_list"}, {"position": "inner"},
+                   {"position": "self_opt", "decl": "inherit"}):
+            shape = {**DEFAULT_SHAPE, **sh}
+            for slots in ({f"{low}.ann": "both", f"{low}.ex": "both"}, {f"{top}.ex": "both", f"{low}.ex": "both"},
+                          {"F1": "both", f"{low}.ex": "both"}, {"F2": "strat", f"{top}.ex": "both"}, {f"{low}.ex": "both"},
+                          {f"{top}.ann": "ser", f"{low}.ann": "de", f"{top}.ex": "strat"}):
+                c = gen_case(rng, entry, "annotated", tk, present=[], shape=dict(shape))
+                c["slots"].update(slots)
+                cases.append(c)
     probes = [
         {"entry": "mixin", "alias": "annotated", "tkind": "list", "slots": {"cfg.ann": "astrat"}},
         {"entry": "mixin", "alias": "annotated", "tkind": "list", "slots": {"F2": "astrat", "cfg.ann": "both"}},
@@ -693,7 +842,7 @@ def generate_cases(ctx: vlib.Ctx) -> list[dict]:
         p.update({"empty": {lvl: "absent" for lvl in LEVELS}, "dialect_support": True})
         cases.append(p)
     if ctx.quick():
-        for _ in range(1500 - len(cases)):
+        for _ in range(max(1200, 1900 - len(cases))):
             cases.append(gen_case(rng))
     else:
         # all presence subsets per entry point for the richest schema (variants sampled per slot) ...
@@ -786,8 +935,12 @@ def run(ctx: vlib.Ctx):
         ctx.hist("entry", case["entry"])
         ctx.hist("alias", case["alias"])
         ctx.hist("n_slots", str(len(case["slots"])))
+        sh = {**DEFAULT_SHAPE, **case.get("shape", {})}
+        ctx.hist("shape_decl", sh["decl"] + ("+typevar" if sh["generic"] == "typevar" else ""))
+        ctx.hist("shape_position", sh["position"])
         for d in ("ser", "de"):
-            key = (case["entry"], case["alias"], case["tkind"], tuple(sorted(case["slots"].items())), d)
+            key = (case["entry"], case["alias"], case["tkind"], tuple(sorted(case["slots"].items())), d,
+                   tuple(sorted(case.get("shape", {}).items())))
             if "class_error" in res:
                 pred = stale_alias_prediction(case, d)
                 if res["class_error"] == "RecursionError" and (pred is None or pred["mode"] != "recursion") \
